@@ -53,14 +53,14 @@ func (m *c15Metrics) set(name string, v float64) {
 	defer m.mu.Unlock()
 	m.vals[name] = v
 }
-func (m *c15Metrics) Register(metrics.Metadata)      {}
-func (m *c15Metrics) Increment(string)               {}
-func (m *c15Metrics) Gauge(name string, v float64)   { m.set(name, v) }
-func (m *c15Metrics) Count(string, int64)            {}
-func (m *c15Metrics) Histogram(string, float64)      {}
-func (m *c15Metrics) Up(string)                      {}
-func (m *c15Metrics) Down(string)                    {}
-func (m *c15Metrics) Store(name string, v float64)   { m.set(name, v) }
+func (m *c15Metrics) Register(metrics.Metadata)    {}
+func (m *c15Metrics) Increment(string)             {}
+func (m *c15Metrics) Gauge(name string, v float64) { m.set(name, v) }
+func (m *c15Metrics) Count(string, int64)          {}
+func (m *c15Metrics) Histogram(string, float64)    {}
+func (m *c15Metrics) Up(string)                    {}
+func (m *c15Metrics) Down(string)                  {}
+func (m *c15Metrics) Store(name string, v float64) { m.set(name, v) }
 func (m *c15Metrics) Get(name string) (float64, bool) {
 	m.mu.Lock()
 	defer m.mu.Unlock()
@@ -133,7 +133,7 @@ type c15Cfg struct {
 type c15Op struct {
 	Op string `json:"op"` // own | peer | advance | reload | recalc
 	// own: set one gauge source so that its contribution is about Level
-	Source string `json:"source,omitempty"` // incoming | peerq | mem
+	Source string `json:"source,omitempty"` // incoming | peerq | mem | all
 	Level  int    `json:"level,omitempty"`  // own: target 0..120 (queues) / percent of MaxAlloc (mem); peer: reported level 0..100
 	Peer   int    `json:"peer,omitempty"`   // peer / advance aim "peer"
 	// advance: Aim "" = D ns; "peer" = to expiry instant of Peer's report + D; "hold" = to (last at-or-above instant)+MinimumActivationDuration + D
@@ -159,7 +159,7 @@ func genC15Cfg(t *rapid.T) c15Cfg {
 	c.Act = uint(rapid.SampledFrom([]int{1, 50, 75, 90, 90, 100}).Draw(t, "act"))
 	// deact < act by construction
 	cands := []int{}
-	for _, d := range []int{0, 1, 49, 50, 74, 75, 89, 99} {
+	for _, d := range []int{0, 1, 49, 50, 50, 74, 75, 75, 89, 99} {
 		if uint(d) < c.Act {
 			cands = append(cands, d)
 		}
@@ -176,7 +176,7 @@ func genC15(t *rapid.T) c15Case {
 		skip := rapid.IntRange(0, 4).Draw(t, "norecalc") == 0
 		switch {
 		case kind <= 5:
-			src := rapid.SampledFrom([]string{"incoming", "incoming", "incoming", "incoming", "peerq", "mem"}).Draw(t, "source")
+			src := rapid.SampledFrom([]string{"all", "all", "all", "incoming", "incoming", "peerq", "mem"}).Draw(t, "source")
 			lv := rapid.SampledFrom(append([]int{120}, c15Levels...)).Draw(t, "level")
 			return c15Op{Op: "own", Source: src, Level: lv, NoRecalc: skip}
 		case kind <= 10:
@@ -434,6 +434,10 @@ func execC15(c c15Case) vkit.Result {
 				mx.Gauge(collect.NUMERATOR_PEER_QUEUE, l*l+0.5)
 			case "mem":
 				mx.Gauge(collect.NUMERATOR_MEMORY_HEAP_ALLOC, l/100*maxAlloc)
+			case "all":
+				mx.Gauge(collect.NUMERATOR_INCOMING_QUEUE, l*l+0.5)
+				mx.Gauge(collect.NUMERATOR_PEER_QUEUE, l*l+0.5)
+				mx.Gauge(collect.NUMERATOR_MEMORY_HEAP_ALLOC, 0)
 			default:
 				mx.Gauge(collect.NUMERATOR_INCOMING_QUEUE, l*l+0.5)
 			}
